@@ -32,6 +32,15 @@ func checkC13(c *Ctx) {
 	c.bufioRetain("ALIAS", []string{"io/fileutils", "io/utils", "io/newick", "io/nexus"}, "Every tree of a multi-tree file is delivered in file order ... or an error is reported")
 	c.Decides("STORE-OR-ERR: in the Nexus TRANSLATE parser every path that has read a key either stores the (key, value) pair or records an error (no entry is dropped silently, whatever token ends it)")
 	c.translateStoreOrErr("STORE-OR-ERR")
+	c.Decides("NAME-EXACT: in the tree library and the format readers/writers case folding (ToLower/ToUpper/Title/EqualFold) is only used to recognise constant keywords, never on a text that is then used as a key, stored or written: names are compared byte for byte")
+	if sc, _ := c.nameExact("NAME-EXACT", c.AllFuncs("tree", "io/newick", "io/nexus", "io/phyloxml", "io/nextstrain", "io/utils", "io/fileutils"), "names are carried over unchanged between the formats"); sc == 0 {
+		c.Undecided("NAME-EXACT", "scan", token.NoPos, "no case-folding call seen in the scanned packages (the Nexus lexer's keyword switch was the instance confirmed by hand)")
+	}
+	if fx := c.Fixture(); fx != nil {
+		sub := c.subCtx(fx)
+		_, nv := sub.nameExact("NAME-EXACT", sub.AllFuncs(), "")
+		c.Control("NAME-EXACT", nv == 1, "fixture.C13FoldedKey uses a lower-cased label as a map key (and folds a keyword switch, which is accepted)")
+	}
 	c.Floor("STORE-OR-ERR", 1)
 	c.Floor("FLOATFMT", 2)
 	c.Floor("ALIAS", 2)
@@ -113,7 +122,7 @@ func (c *Ctx) firstTreeConv(pkgRel, recv string) {
 	name := pkgRel + "." + recv
 	clause := "reading 'the first tree' of a file gives the same tree as the first one delivered by the multi-tree reader, for every format"
 	// converter call in a function: repository callee with a *tree.Tree argument
-	conv := func(fi *FuncInfo) (call *ast.CallExpr, treeArg ast.Expr, srcArg ast.Expr) {
+	convIn := func(fi *FuncInfo) (call *ast.CallExpr, treeArg ast.Expr, srcArg ast.Expr) {
 		for _, cl := range callsIn(fi.Decl.Body, true) {
 			fn := calleeOf(info, cl)
 			if fn == nil || !inRepo(fn) || fn.Pkg().Path() != it.Pkg.PkgPath {
@@ -133,27 +142,223 @@ func (c *Ctx) firstTreeConv(pkgRel, recv string) {
 		}
 		return nil, nil, nil
 	}
-	icall, itree, isrc := conv(it)
-	fcall, ftree, fsrc := conv(ft)
-	if icall == nil || fcall == nil {
+	cb := paramObj(info, it.Decl, 0)
+	// builder: a function of the package, func(src) (*tree.Tree, error), that holds the converter
+	// call on its parameter and returns the tree it filled together with the converter's error.
+	// A builder call stands for the converter call; `pass` tells that its two results are handed on
+	// as they are (operands of return, or the arguments of the callback).
+	type producer struct {
+		call    *ast.CallExpr // converter call, or builder call
+		conv    *types.Func   // the converter finally applied
+		tree    ast.Expr      // variable that holds the converted tree (nil when pass)
+		src     ast.Expr
+		pass    bool
+		builder *FuncInfo
+	}
+	builderOf := func(g *types.Func) (*FuncInfo, *types.Func) {
+		if g == nil || !inRepo(g) || g.Pkg().Path() != it.Pkg.PkgPath {
+			return nil, nil
+		}
+		sig := g.Type().(*types.Signature)
+		if sig.Results().Len() != 2 || !isTreePtr(sig.Results().At(0).Type()) || !isErrorType(sig.Results().At(1).Type()) || sig.Params().Len() != 1 {
+			return nil, nil
+		}
+		gi := c.FuncOfObj(g)
+		if gi == nil || gi.Decl.Body == nil {
+			return nil, nil
+		}
+		cl, ta, sa := convIn(gi)
+		if cl == nil || identObj(info, ta) == nil || identObj(info, sa) != paramObj(info, gi.Decl, 0) {
+			return nil, nil
+		}
+		// every return hands back the tree it filled and the converter's error
+		var errObj types.Object
+		for _, st := range stackTo(gi.Decl.Body, cl) {
+			if as, ok := st.(*ast.AssignStmt); ok && len(as.Lhs) == 1 && len(as.Rhs) == 1 && unparen(as.Rhs[0]) == ast.Expr(cl) {
+				errObj = identObj(info, as.Lhs[0])
+			}
+		}
+		good, nret := errObj != nil, 0
+		var named []types.Object
+		if gi.Decl.Type.Results != nil {
+			for _, f := range gi.Decl.Type.Results.List {
+				for _, nm := range f.Names {
+					named = append(named, info.Defs[nm])
+				}
+			}
+		}
+		ast.Inspect(gi.Decl.Body, func(n ast.Node) bool {
+			if _, ok := n.(*ast.FuncLit); ok {
+				return false
+			}
+			if r, ok := n.(*ast.ReturnStmt); ok {
+				nret++
+				switch {
+				case len(r.Results) == 2:
+					if identObj(info, r.Results[0]) != identObj(info, ta) || identObj(info, r.Results[1]) != errObj {
+						good = false
+					}
+				case len(r.Results) == 0 && len(named) == 2:
+					if named[0] != identObj(info, ta) || named[1] != errObj {
+						good = false
+					}
+				default:
+					good = false
+				}
+			}
+			return true
+		})
+		if !good || nret == 0 {
+			return nil, nil
+		}
+		return gi, calleeOf(info, cl)
+	}
+	prod := func(fi *FuncInfo) *producer {
+		if cl, ta, sa := convIn(fi); cl != nil {
+			return &producer{call: cl, conv: calleeOf(info, cl), tree: ta, src: sa}
+		}
+		for _, cl := range callsIn(fi.Decl.Body, true) {
+			gi, cv := builderOf(calleeOf(info, cl))
+			if gi == nil || len(cl.Args) != 1 {
+				continue
+			}
+			p := &producer{call: cl, conv: cv, src: cl.Args[0], builder: gi}
+			st := stackTo(fi.Decl.Body, cl)
+			if len(st) >= 2 {
+				switch par := st[len(st)-2].(type) {
+				case *ast.ReturnStmt:
+					p.pass = len(par.Results) == 1
+				case *ast.CallExpr:
+					if id, ok := unparen(par.Fun).(*ast.Ident); ok && info.Uses[id] == cb && len(par.Args) == 1 {
+						p.pass = true
+					}
+				case *ast.AssignStmt:
+					if len(par.Lhs) == 2 && len(par.Rhs) == 1 {
+						p.tree = par.Lhs[0]
+					}
+				}
+			}
+			if p.pass || p.tree != nil {
+				return p
+			}
+		}
+		return nil
+	}
+	// delegation: the iterator hands FirstTree's two results to the callback as they are
+	for _, cl := range callsIn(it.Decl.Body, true) {
+		if id, ok := unparen(cl.Fun).(*ast.Ident); ok && info.Uses[id] == cb && len(cl.Args) == 1 {
+			if inner, ok := unparen(cl.Args[0]).(*ast.CallExpr); ok && calleeOf(info, inner) == ft.Obj {
+				if conds, okc := c.pathConds(info, it.Decl.Body, cl, false); okc && len(conds) == 0 && len(callsIn(it.Decl.Body, true)) == 2 {
+					c.OK("FIRST", name+"/same-converter", cl.Pos(), "the iterator delivers exactly what FirstTree returns (tree and error)").Clause = clause
+					c.OK("FIRST", name+".IterateTrees/delivers-converted", cl.Pos(), "the iterator delivers exactly what FirstTree returns").Clause = clause
+					c.OK("FIRST", name+"/same-source", cl.Pos(), "the iterator delivers exactly what FirstTree returns").Clause = clause
+					c.OK("ERRFLOW", funcName(it.Obj)+"/FirstTree", cl.Pos(), "both results of FirstTree are the arguments of the callback").Clause = "or an error is reported, none is silently skipped"
+					fp := prod(ft)
+					if fp == nil {
+						c.Undecided("FIRST", name+"/converter", ft.Decl.Pos(), "converter call (a repository function taking the source element and a *tree.Tree) not found in FirstTree")
+						return
+					}
+					c.firstTreeSelf(name, clause, ft, fp.call, fp.tree, fp.pass, fp.builder != nil)
+					return
+				}
+			}
+		}
+	}
+	ip, fp := prod(it), prod(ft)
+	if ip == nil || fp == nil {
 		c.Undecided("FIRST", name+"/converter", ft.Decl.Pos(), "converter call (a repository function taking the source element and a *tree.Tree) not found in IterateTrees/FirstTree")
 		return
 	}
-	c.Check(calleeOf(info, icall) == calleeOf(info, fcall), "FIRST", name+"/same-converter", fcall.Pos(),
-		"FirstTree and IterateTrees convert with the same function "+calleeOf(info, icall).Name(),
-		"FirstTree converts with "+calleeOf(info, fcall).Name()+" but the iterator with "+calleeOf(info, icall).Name()).Clause = clause
+	icall, itree, isrc := ip.call, ip.tree, ip.src
+	fcall, ftree, fsrc := fp.call, fp.tree, fp.src
+	c.Check(ip.conv == fp.conv, "FIRST", name+"/same-converter", fcall.Pos(),
+		"FirstTree and IterateTrees convert with the same function "+ip.conv.Name(),
+		"FirstTree converts with "+fp.conv.Name()+" but the iterator with "+ip.conv.Name()).Clause = clause
 	// iterator: the callback receives the converted tree
-	cb := paramObj(info, it.Decl, 0)
-	okCb := false
+	okCb := ip.pass
 	for _, cl := range callsIn(it.Decl.Body, true) {
-		if id, ok := unparen(cl.Fun).(*ast.Ident); ok && info.Uses[id] == cb && len(cl.Args) >= 1 {
+		if id, ok := unparen(cl.Fun).(*ast.Ident); ok && info.Uses[id] == cb && len(cl.Args) >= 1 && itree != nil {
 			if identObj(info, cl.Args[0]) == identObj(info, itree) && identObj(info, itree) != nil {
 				okCb = true
 			}
 		}
 	}
 	c.Check(okCb, "FIRST", name+".IterateTrees/delivers-converted", icall.Pos(), "the callback receives the tree the converter filled", "the iterator's callback does not receive the tree object that the converter filled").Clause = clause
-	// FirstTree: the returned tree is the object handed to the converter
+	// same source element
+	ik, fk := c.srcKey(info, it.Decl, isrc), c.srcKey(info, ft.Decl, fsrc)
+	// `X[0]` (taken directly) is the first element of `range X`
+	firstOf := func(k string) string {
+		k = strings.TrimPrefix(k, "&")
+		if strings.HasSuffix(k, "[0]") {
+			return "range(" + strings.TrimSuffix(k, "[0]") + ")"
+		}
+		return ""
+	}
+	sameSrc := ik == fk || (firstOf(fk) != "" && firstOf(fk) == ik)
+	c.Check(sameSrc, "FIRST", name+"/same-source", fcall.Pos(), "both convert "+ik, "FirstTree converts "+fk+" while the iterator converts "+ik).Clause = clause
+	// when the source is a range value, FirstTree must take the first element: the converter call is
+	// unguarded inside the loop and the loop body leaves after it
+	if strings.HasPrefix(fk, "range(") && func() bool {
+		for _, s := range stackTo(ft.Decl.Body, fcall) {
+			if _, ok := s.(*ast.RangeStmt); ok {
+				return true
+			}
+		}
+		return false
+	}() {
+		st := stackTo(ft.Decl.Body, fcall)
+		var rs *ast.RangeStmt
+		for _, s := range st {
+			if r, ok := s.(*ast.RangeStmt); ok {
+				rs = r
+			}
+		}
+		good := false
+		if rs != nil {
+			conds, okc := c.pathConds(info, ft.Decl.Body, fcall, true)
+			good = okc && len(conds) == 0 && c.leaves(info, rs.Body.List)
+		}
+		c.Check(good, "FIRST", name+".FirstTree/first-element", fcall.Pos(), "converts the first element unconditionally and leaves the loop", "FirstTree does not unconditionally convert the first element and stop: it may return a later tree than the first one the iterator delivers").Clause = clause
+	}
+	c.firstTreeSelf(name, clause, ft, fcall, ftree, fp.pass, fp.builder != nil)
+	// the error of the conversion is delivered by the iterator
+	if ip.pass {
+		c.OK("ERRFLOW", funcName(it.Obj)+"/"+calleeOf(info, icall).Name(), icall.Pos(), "both results of the conversion are the arguments of the callback").Clause = "or an error is reported, none is silently skipped"
+	} else {
+		sp := &errFlowSpec{info: info, body: it.Decl.Body, ftype: it.Decl.Type}
+		sp.extraSink = func(n ast.Node, v types.Object) bool {
+			found := false
+			ast.Inspect(n, func(m ast.Node) bool {
+				if cl, ok := m.(*ast.CallExpr); ok {
+					if id, ok := unparen(cl.Fun).(*ast.Ident); ok && info.Uses[id] == cb {
+						for _, a := range cl.Args {
+							if identObj(info, a) == v {
+								found = true
+							}
+						}
+					}
+				}
+				return true
+			})
+			return found
+		}
+		r := c.errFlow(sp, icall)
+		c.reportErrFlow("ERRFLOW", funcName(it.Obj)+"/"+calleeOf(info, icall).Name(), r, "the conversion", "or an error is reported, none is silently skipped")
+	}
+	if ip.builder != nil {
+		gi := ip.builder
+		c.OK("ERRFLOW", funcName(gi.Obj)+"/"+ip.conv.Name(), gi.Decl.Pos(), "the builder returns the tree it filled together with the converter's error on every return").Clause = "or an error is reported, none is silently skipped"
+	}
+}
+
+// firstTreeSelf: FirstTree returns the object handed to the converter, and the conversion's error.
+func (c *Ctx) firstTreeSelf(name, clause string, ft *FuncInfo, fcall *ast.CallExpr, ftree ast.Expr, pass, viaBuilder bool) {
+	info := ft.Pkg.TypesInfo
+	if pass {
+		c.OK("FIRST", name+".FirstTree/returns-converted", fcall.Pos(), "FirstTree returns the two results of the conversion as they are").Clause = clause
+		c.OK("ERRFLOW", funcName(ft.Obj)+"/"+calleeOf(info, fcall).Name(), fcall.Pos(), "both results of the conversion are returned").Clause = "or an error is reported, none is silently skipped"
+		return
+	}
 	var resObj types.Object
 	if ft.Decl.Type.Results != nil {
 		for _, f := range ft.Decl.Type.Results.List {
@@ -195,69 +400,9 @@ func (c *Ctx) firstTreeConv(pkgRel, recv string) {
 		}
 		c.Violation("FIRST", name+".FirstTree/returns-converted", fcall.Pos(), why).Clause = clause
 	}
-	// same source element
-	ik, fk := c.srcKey(info, it.Decl, isrc), c.srcKey(info, ft.Decl, fsrc)
-	// `X[0]` (taken directly) is the first element of `range X`
-	firstOf := func(k string) string {
-		k = strings.TrimPrefix(k, "&")
-		if strings.HasSuffix(k, "[0]") {
-			return "range(" + strings.TrimSuffix(k, "[0]") + ")"
-		}
-		return ""
-	}
-	sameSrc := ik == fk || (firstOf(fk) != "" && firstOf(fk) == ik)
-	c.Check(sameSrc, "FIRST", name+"/same-source", fcall.Pos(), "both convert "+ik, "FirstTree converts "+fk+" while the iterator converts "+ik).Clause = clause
-	// when the source is a range value, FirstTree must take the first element: the converter call is
-	// unguarded inside the loop and the loop body leaves after it
-	if strings.HasPrefix(fk, "range(") && func() bool {
-		for _, s := range stackTo(ft.Decl.Body, fcall) {
-			if _, ok := s.(*ast.RangeStmt); ok {
-				return true
-			}
-		}
-		return false
-	}() {
-		st := stackTo(ft.Decl.Body, fcall)
-		var rs *ast.RangeStmt
-		for _, s := range st {
-			if r, ok := s.(*ast.RangeStmt); ok {
-				rs = r
-			}
-		}
-		good := false
-		if rs != nil {
-			conds, okc := c.pathConds(info, ft.Decl.Body, fcall, true)
-			good = okc && len(conds) == 0 && c.leaves(info, rs.Body.List)
-		}
-		c.Check(good, "FIRST", name+".FirstTree/first-element", fcall.Pos(), "converts the first element unconditionally and leaves the loop", "FirstTree does not unconditionally convert the first element and stop: it may return a later tree than the first one the iterator delivers").Clause = clause
-	}
-	// the error of the conversion is delivered in both
-	for _, p := range []struct {
-		fi   *FuncInfo
-		call *ast.CallExpr
-	}{{it, icall}, {ft, fcall}} {
-		sp := &errFlowSpec{info: info, body: p.fi.Decl.Body, ftype: p.fi.Decl.Type}
-		if p.fi == it {
-			sp.extraSink = func(n ast.Node, v types.Object) bool {
-				found := false
-				ast.Inspect(n, func(m ast.Node) bool {
-					if cl, ok := m.(*ast.CallExpr); ok {
-						if id, ok := unparen(cl.Fun).(*ast.Ident); ok && info.Uses[id] == cb {
-							for _, a := range cl.Args {
-								if identObj(info, a) == v {
-									found = true
-								}
-							}
-						}
-					}
-					return true
-				})
-				return found
-			}
-		}
-		r := c.errFlow(sp, p.call)
-		c.reportErrFlow("ERRFLOW", funcName(p.fi.Obj)+"/"+calleeOf(info, p.call).Name(), r, "the conversion", "or an error is reported, none is silently skipped")
-	}
+	sp := &errFlowSpec{info: info, body: ft.Decl.Body, ftype: ft.Decl.Type}
+	r := c.errFlow(sp, fcall)
+	c.reportErrFlow("ERRFLOW", funcName(ft.Obj)+"/"+calleeOf(info, fcall).Name(), r, "the conversion", "or an error is reported, none is silently skipped")
 }
 
 func (c *Ctx) nexusFirst() {
@@ -444,7 +589,7 @@ func (c *Ctx) multiTreeIds() {
 	clause := "delivered in file order with consecutive identifiers"
 	// sends of tree.Trees literals
 	type sendSite struct {
-		st    *ast.SendStmt
+		st     *ast.SendStmt
 		fields map[string]ast.Expr
 		owner  *ast.FuncLit // innermost function literal
 	}
